@@ -72,6 +72,10 @@ def substitute(body, amap):
         elif c == '"':
             k = skip_string(body, i)
             out.append(body[i:k]); i = k
+        elif body.startswith("/*", i):
+            k = body.find("*/", i + 2)
+            k = n if k < 0 else k + 2
+            out.append(body[i:k]); i = k        # a block comment is ordinary macro text
         elif body.startswith("//", i):
             k = body.find("\n", i)
             i = n if k < 0 else k
